@@ -16,8 +16,11 @@
 (* Variant "accumulating" - particles of earlier reads stay in the set and *)
 (*                          the switch is only ever set   (defects F8, F13)*)
 (* Variant "per_read"     - the set starts empty at every read and the     *)
-(*                          switch is restored when the read returns       *)
-(* TLC checks HistoryIndependent for "per_read", refutes "accumulating",   *)
+(*                          switch is restored when the read returns or is *)
+(*                          rejected                                       *)
+(* Variant "no_restore_when_rejected" - as per_read, but a rejected read   *)
+(*                          leaves the switch as the file set it           *)
+(* TLC checks HistoryIndependent for "per_read", refutes the two others,   *)
 (* and emits every history for replay against fresh interpreters.          *)
 (***************************************************************************)
 EXTENDS Naturals, Sequences, FiniteSets, TLC, VerifIO, Json, IOUtils
@@ -25,12 +28,14 @@ EXTENDS Naturals, Sequences, FiniteSets, TLC, VerifIO, Json, IOUtils
 CONSTANTS Variant, MaxLen, EmitMode
 
 Classes == {"base", "cpp", "py"}
-Files == {"fA", "fB", "fC", "fD"}
+Files == {"fA", "fB", "fC", "fD", "fE"}
 \* (the resonance content of the four files of harness/c20.py)
-FileOf(f) == CASE f = "fA" -> [res |-> {"r1", "r2"}, cart |-> "absent"]
-               [] f = "fB" -> [res |-> {"r2", "r3"}, cart |-> "1"]
-               [] f = "fC" -> [res |-> {"r4", "r6", "r7"}, cart |-> "0"]
-               [] f = "fD" -> [res |-> {"r1", "r3", "r5", "r8"}, cart |-> "absent"]
+\* fE carries the cartesian option and a resonance name the particle table does not know: the read is rejected
+FileOf(f) == CASE f = "fA" -> [res |-> {"r1", "r2"}, cart |-> "absent", fails |-> FALSE]
+               [] f = "fB" -> [res |-> {"r2", "r3"}, cart |-> "1", fails |-> FALSE]
+               [] f = "fC" -> [res |-> {"r4", "r6", "r7"}, cart |-> "0", fails |-> FALSE]
+               [] f = "fD" -> [res |-> {"r1", "r3", "r5", "r8"}, cart |-> "absent", fails |-> FALSE]
+               [] f = "fE" -> [res |-> {"r1"}, cart |-> "1", fails |-> TRUE]
 
 VARIABLES allP,    \* the shared set
           cart,    \* cls -> "unset" | "F" | "T"   ("unset": look at the base class)
@@ -47,11 +52,16 @@ Init == allP = {} /\ cart = [c \in Classes |-> IF c = "base" THEN "F" ELSE "unse
 After(a, c, cls, f) ==
     LET F == FileOf(f)
         c1 == IF F.cart = "absent" THEN c ELSE [c EXCEPT ![cls] = IF F.cart = "1" THEN "T" ELSE "F"]
-        a0 == IF Variant = "per_read" THEN {} ELSE a
+        a0 == IF Variant = "accumulating" THEN a ELSE {}
         a1 == a0 \cup F.res
-    IN [result |-> [declared |-> a1, coupling |-> Lookup(c1, cls)],
-        allP |-> a1,
-        cart |-> IF Variant = "per_read" THEN c ELSE c1]
+    IN IF F.fails
+       THEN [result |-> [declared |-> {"rejected"}, coupling |-> "rejected"],
+             allP |-> a1,
+             \* the option has been applied when the read is rejected: it must be put back on this path too
+             cart |-> IF Variant = "per_read" THEN c ELSE c1]
+       ELSE [result |-> [declared |-> a1, coupling |-> Lookup(c1, cls)],
+             allP |-> a1,
+             cart |-> IF Variant \in {"per_read", "no_restore_when_rejected"} THEN c ELSE c1]
 
 Call(cls, f) ==
     LET r == After(allP, cart, cls, f) IN
@@ -78,6 +88,8 @@ TraceNext ==
           /\ UNCHANGED tid
           /\ LET want == hist'[Len(hist')].result
                  ok == AllOf(<<
+                    ChkD(tid, "C20:a-file-is-accepted-or-rejected-whatever-came-before",
+                         ev.rejected = FileOf(ev.f).fails, [step |-> l, call |-> <<ev.cls, ev.f>>, obs |-> ev.rejected]),
                     ChkD(tid, "C20:declared-resonance-variables-are-those-of-the-file-read",
                          ev.declared = <<"n/a">> \/ {ev.declared[i] : i \in DOMAIN ev.declared} = want.declared,
                          [step |-> l, call |-> <<ev.cls, ev.f>>, exp |-> want.declared, obs |-> ev.declared]),
